@@ -126,6 +126,32 @@ def check(sp):
                                           "second dump lists a child's namespace prefixes in its parent's order", case))
                 continue
             raise Violation("text-not-idempotent", "to_json(from_json(to_json(t))) != to_json(t)", case)
+    # the same for a subtree saved on its own: to_json called on an inner node (any indent)
+    Node.store.clear()
+    t = treegen.build(sp)
+    allnodes = treegen.nodes(t)
+    if len(allnodes) >= 2:
+        from vf.runner import h64
+        inner = allnodes[1 + h64(sp) % (len(allnodes) - 1)]
+        want_i = snapshot.snap(inner, ids=True)
+        want_t = snapshot.snap(t, ids=True)
+        for indent in (None, 2):
+            try:
+                text_i = metapype_io.to_json(inner, indent)
+            except Exception as e:  # noqa
+                raise Violation("to-json-raises:" + type(e).__name__, "on an inner node: " + repr(e)[:200], case)
+            if snapshot.snap(t, ids=True) != want_t:
+                raise Violation("to-json-of-inner-node-changes-tree", "the tree differs after to_json(inner node)", case)
+            if json.loads(text_i) != layout(inner):
+                raise Violation("layout-differs:inner-node", "json.loads(to_json(inner node)) is not the positional layout of that subtree", case)
+            try:
+                t4 = metapype_io.from_json(text_i)
+            except Exception as e:  # noqa
+                raise Violation("from-json-raises:" + type(e).__name__, "subtree saved on its own: " + repr(e)[:200], case)
+            got = snapshot.snap(t4, ids=True)
+            if got != want_i:
+                raise Violation("round-trip-differs:inner-node:" + first_field_diff(want_i, got),
+                                "a subtree saved on its own reloads differently in " + first_field_diff(want_i, got), case)
     # legacy codec (fields it carries)
     Node.store.clear()
     t = treegen.build(sp)
